@@ -24,7 +24,7 @@ type c07Item struct {
 	cold  bool
 }
 
-func c07Rounds(c *Ctx) int { return tierN(c, 16, 64) }
+func c07Rounds(c *Ctx) int { return tierN(c, 16, 128) }
 
 var c07Configs = []struct{ g, procs int }{{2, 2}, {8, 2}, {32, 2}, {2, 16}, {8, 16}, {32, 16}, {64, 16}, {16, 4}}
 
@@ -355,7 +355,7 @@ func init() {
 	})
 	batchOverride["C07"] = func(tier, mode string) int {
 		if tier == "thorough" {
-			return 64
+			return 128
 		}
 		return 16
 	}
